@@ -44,7 +44,7 @@ Lemma handler_success_is_full_effect : forall flag ct w w',
   (flag = true \/ match ct with CDurations l => forallb (fun e => n_endtime (w_np w) <=? snd e) l = true | _ => True end) ->
   c_handler flag ct w = Ok w' -> w' = spec_effect ct w.
 Proof.
-  intros flag ct w w' Hg H. destruct ct as [pid v|key hash|who perm|who perm|l]; cbn [c_handler spec_effect] in *.
+  intros flag ct w w' Hg H. destruct ct as [pid v|key hash|who perm|who perm|l|name owners q period enact]; cbn [c_handler spec_effect] in *.
   - destruct (np_get pid (w_np w)) as [cur|]; [|discriminate]. destruct (cur =? v); [discriminate|].
     unfold np_set in H. destruct (np_put pid v (w_np w)) as [n'|]; [|discriminate].
     destruct (np_valid n'); inversion H. reflexivity.
@@ -55,6 +55,7 @@ Proof.
   - destruct Hg as [->|Hg].
     + apply apply_durations_complete. exact H.
     + rewrite (apply_durations_no_short flag l w Hg) in H. inversion H. reflexivity.
+  - destruct (pool_of w (CPoolUpdate name owners q period enact)); inversion H. reflexivity.
 Qed.
 
 (* full strength for the tree as it is: the translator read `return err` (this proof stops checking
@@ -71,7 +72,7 @@ Qed.
 
 (* the durations handler in its earlier `return nil` shape (error swallowed): success without the complete effect *)
 Definition w_demo : world :=
-  mkW (mkNP 100 1000000 330000000000000000 300 10 1 1) [(0, mkA true true [10; 11; 31; 32])] [0; 0; 0; 0; 0; 0; 0; 0] [0; 0; 0; 0].
+  mkW (mkNP 100 1000000 330000000000000000 300 10 1 1) [(0, mkA true true [10; 11; 31; 32])] [0; 0; 0; 0; 0; 0; 0; 0] [0; 0; 0; 0] None.
 
 Lemma durations_all_or_nothing_refuted :
   exists l w w', c_handler false (CDurations l) w = Ok w' /\ w' <> spec_effect (CDurations l) w.
@@ -92,3 +93,198 @@ Lemma demo_applied_once :
   /\ option_map (fun p => vresult_code (p_result p)) (props demo_final 1) = Some 1
   /\ votes demo_final 1 = [(0, 1)].
 Proof. vm_compute. repeat split; reflexivity. Qed.
+
+(* ================================================================ chk_sound (clause level)
+   The spec checker's own decision functions (Model/C08Check.v, written from the property text)
+   agree with the model's oracles, and its "passed" clauses accept every finalisation the model
+   makes with result Enactment -- this is what connects "the real trace passes the checker" to
+   the lifecycle theorems.  Dynamic-voter contents are excluded from the veto part: there the
+   model follows the code (veto-capable voters = holders of permission 0) and the checker follows
+   the property text (known finding passed_despite_veto:dynamic_voter_proposal). *)
+Lemma mem_uniq : forall x l, mem x (uniq l) = mem x l.
+Proof.
+  intros x l. induction l as [|y r IH]; [reflexivity|]. cbn [uniq].
+  assert (Hc : mem x (y :: r) = (x =? y) || mem x r) by reflexivity. rewrite Hc.
+  destruct (mem y r) eqn:E.
+  - rewrite IH. destruct (Z.eqb_spec x y) as [->|]; [rewrite E; reflexivity|reflexivity].
+  - assert (Hc' : mem x (y :: uniq r) = (x =? y) || mem x (uniq r)) by reflexivity. rewrite Hc', IH. reflexivity.
+Qed.
+
+Lemma chk_window_matches : forall w ct,
+  fst (spec_window w ct) = w_end_secs w ct /\ snd (spec_window w ct) = w_enact_secs w ct.
+Proof.
+  intros w ct. unfold spec_window, w_end_secs, w_enact_secs, pool_of.
+  destruct (vote_perm ct =? 0); [|split; reflexivity].
+  destruct ct as [| | | | |name owners q period enact]; try (split; reflexivity).
+  destruct name as [|[| |]|]; try (split; reflexivity). destruct (w_pool w); split; reflexivity.
+Qed.
+
+Lemma chk_quorum_matches : forall w ct, spec_quorum w ct = w_quorum w ct.
+Proof.
+  intros w ct. unfold spec_quorum, w_quorum, pool_of. destruct (vote_perm ct =? 0); [|reflexivity].
+  destruct ct as [| | | | |name owners q period enact]; try reflexivity.
+  destruct name as [|[| |]|]; try reflexivity.
+Qed.
+
+Lemma chk_may_vote_matches : forall w who ct,
+  may_vote w who ct = w_is_active w who && w_can w who (vote_perm ct) ct.
+Proof.
+  intros w who ct. unfold may_vote, w_can, pool_allowed, pool_of, dyn_owners. f_equal.
+  destruct (vote_perm ct =? 0); [|reflexivity].
+  destruct ct as [| | | | |name owners q period enact]; try reflexivity.
+  destruct name as [|[| |]|]; try reflexivity. destruct (w_pool w) as [p|]; [apply mem_uniq|reflexivity].
+Qed.
+
+Lemma filter_filter_len : forall {X} (f g : X -> bool) l,
+  List.length (filter g (filter f l)) = List.length (filter (fun x => f x && g x) l).
+Proof.
+  induction l as [|x r IH]; [reflexivity|]. cbn [filter]. destruct (f x); cbn [filter andb]; [|exact IH].
+  destruct (g x); cbn [List.length]; rewrite IH; reflexivity.
+Qed.
+
+Lemma chk_electorate_matches : forall w ct, (vote_perm ct =? 0) = false ->
+  eligible w ct = w_nvoters w ct /\ veto_capable w ct = w_nveto w ct.
+Proof.
+  intros w ct H. unfold eligible, veto_capable, w_nvoters, w_nveto, w_voters. rewrite H. split; [reflexivity|].
+  rewrite filter_filter_len. reflexivity.
+Qed.
+
+(* sorting the votes (what the harness reports and the checker tracks) keeps every count *)
+Lemma ins_vote_count : forall (f : Z * Z -> bool) who opt l, ~ In who (map fst l) ->
+  List.length (filter f (ins_vote who opt l)) = List.length (filter f ((who, opt) :: l)).
+Proof.
+  intros f who opt l. induction l as [|[k o] r IH]; intros Hn; [reflexivity|]. cbn [ins_vote].
+  destruct (Z.eqb_spec k who) as [->|Hne]; [exfalso; apply Hn; left; reflexivity|].
+  destruct (who <? k); [reflexivity|].
+  assert (Hr : ~ In who (map fst r)) by (intros E; apply Hn; right; exact E).
+  specialize (IH Hr). cbn [filter] in *. destruct (f (k, o)); destruct (f (who, opt)); cbn [List.length] in *; lia.
+Qed.
+
+Lemma ins_vote_keys : forall who opt l x, In x (map fst (ins_vote who opt l)) -> x = who \/ In x (map fst l).
+Proof.
+  intros who opt l x. induction l as [|[k o] r IH]; cbn [ins_vote].
+  - cbn. intros [E|[]]. left. symmetry. exact E.
+  - destruct (k =? who).
+    + cbn [map fst In]. intros [E|E]; [left; symmetry; exact E|right; right; exact E].
+    + destruct (who <? k); cbn [map fst In].
+      * intros [E|[E|E]]; [left; symmetry; exact E|right; left; exact E|right; right; exact E].
+      * intros [E|E]; [right; left; exact E|]. apply IH in E. destruct E as [E|E]; [left; exact E|right; right; exact E].
+Qed.
+
+Lemma sort_votes_keys : forall l x, In x (map fst (sort_votes l)) -> In x (map fst l).
+Proof.
+  induction l as [|[k o] r IH]; intros x H; [exact H|]. unfold sort_votes in *. cbn [fold_right fst snd] in H.
+  apply ins_vote_keys in H. cbn [map fst In]. destruct H as [->|H]; [left; reflexivity|right; apply IH; exact H].
+Qed.
+
+Lemma sort_votes_count : forall (f : Z * Z -> bool) l, NoDup (map fst l) ->
+  List.length (filter f (sort_votes l)) = List.length (filter f l).
+Proof.
+  intros f l. induction l as [|[k o] r IH]; intros Hd; [reflexivity|].
+  inversion Hd as [|? ? Hn Hr]; subst. unfold sort_votes in *. cbn [fold_right fst snd].
+  rewrite ins_vote_count.
+  - cbn [filter]. destruct (f (k, o)); cbn [List.length]; rewrite (IH Hr); reflexivity.
+  - intros E. apply Hn. apply sort_votes_keys. exact E.
+Qed.
+
+Lemma filter_true_len : forall {X} (l : list X), List.length (filter (fun _ => true) l) = List.length l.
+Proof. induction l as [|x r IH]; [reflexivity|]. cbn. rewrite IH. reflexivity. Qed.
+
+(* the votes of a proposal in the model never contain a voter twice *)
+Lemma set_vote_nodup : forall who opt vs, NoDup (map fst vs) -> NoDup (map fst (set_vote who opt vs)).
+Proof.
+  intros who opt vs H. unfold set_vote. cbn [map fst]. constructor.
+  - intros E. apply in_map_iff in E. destruct E as [[k o] [Ek Ein]]. apply filter_In in Ein. cbn [fst] in *.
+    subst k. destruct Ein as [_ Ein]. rewrite Z.eqb_refl in Ein. discriminate.
+  - apply NoDup_map_filter. exact H.
+Qed.
+
+Lemma votes_of_nodup : forall A content id (l : list (event A content)), NoDup (map fst (votes_of A content id l)).
+Proof.
+  intros A content id l. induction l as [|e r IH]; [constructor|].
+  destruct e; cbn [votes_of]; try exact IH. destruct (id0 =? id); [apply set_vote_nodup; exact IH|exact IH].
+Qed.
+
+(* every finalisation with result Enactment made by the model satisfies the checker's "passed"
+   clauses, evaluated -- as the checker does -- on the sorted votes and the world at the tally *)
+Lemma chk_passed_sound : forall w id ct vend eend minv res fin nap vs,
+  (vote_perm ct =? 0) = false -> NoDup (map fst vs) ->
+  let tl := tally_of vs (w_nveto w ct) in
+  is_quorum (w_quorum w ct) (t_total tl) (w_nvoters w ct) = Ok true ->
+  final_result world ccontent cext (c_params durations_error_returned decide_q) true tl = Enactment ->
+  pass_clauses w (mkR id ct vend eend minv res fin nap (sort_votes vs)) = [].
+Proof.
+  intros w id ct vend eend minv res fin nap vs Hd Hnd tl Hq Hres.
+  apply (final_result_enactment world ccontent cext (c_params durations_error_returned decide_q)) in Hres;
+    [|intros t; apply decide_q_range].
+  destruct Hres as [_ Hpass]. cbn [decide c_params] in Hpass.
+  apply decide_q_passed_iff in Hpass; [|apply tally_of_wf]. destruct Hpass as [Hmaj Hveto].
+  apply is_quorum_exact in Hq. destruct Hq as [_ [_ Hq]]. symmetry in Hq. apply Z.leb_le in Hq.
+  destruct (chk_electorate_matches w ct Hd) as [He Hv].
+  unfold pass_clauses. cbn [r_ct r_votes]. rewrite Hd, chk_quorum_matches, He, Hv.
+  assert (Hlen : Z.of_nat (List.length (sort_votes vs)) = t_total tl).
+  { rewrite <- (filter_true_len (sort_votes vs)), sort_votes_count, filter_true_len by assumption. reflexivity. }
+  assert (Hyes : nopt 1 (sort_votes vs) = t_yes tl) by (unfold nopt; rewrite sort_votes_count by assumption; reflexivity).
+  assert (Hvt : nopt 4 (sort_votes vs) = t_veto tl) by (unfold nopt; rewrite sort_votes_count by assumption; reflexivity).
+  rewrite Hlen, Hyes, Hvt. cbn [t_vcap tl tally_of] in Hveto.
+  replace (w_quorum w ct * w_nvoters w ct <=? t_total tl * PREC) with true by (symmetry; apply Z.leb_le; lia).
+  replace (t_total tl <? 2 * t_yes tl) with true by (symmetry; apply Z.ltb_lt; lia).
+  replace ((w_nveto w ct =? 0) || (2 * t_veto tl <? w_nveto w ct)) with true; [reflexivity|].
+  symmetry. apply orb_true_iff. destruct Hveto as [E|E]; [left; apply Z.eqb_eq; exact E|right; apply Z.ltb_lt; exact E].
+Qed.
+
+(* ---- the same at the level of histories of the instantiated model: the clauses the checker
+   evaluates at a finalisation, at an application and at an accepted vote hold in every run *)
+Definition cP : params world ccontent cext := c_params durations_error_returned decide_q.
+
+Lemma chk_sound_finalisation : forall w0 ops id tl nv q mine cf af l1 l2 p,
+  log (run world ccontent cext cP ops (init w0)) = l1 ++ EvFinal id Enactment tl nv q mine cf af :: l2 ->
+  submit_of world ccontent id l2 = Some p -> (vote_perm (p_content p) =? 0) = false ->
+  (p_vend p <=? now cf) && (p_minv p <=? height cf) = true                               (* clause early_final *)
+  /\ pass_clauses af (mkR id (p_content p) (p_vend p) (p_eend p) (p_minv p) 4 None 0
+                          (sort_votes (votes_of world ccontent id l2))) = [].            (* clauses passed_* *)
+Proof.
+  intros w0 ops id tl nv q mine cf af l1 l2 p Hlog Hs Hd.
+  pose proof (inv_log _ _ _ _ _ (history_ok world ccontent cext cP ops w0)) as Hok. rewrite Hlog in Hok.
+  destruct (log_ok_at _ _ _ _ _ _ _ Hok) as [He _]. cbn [ev_ok] in He.
+  destruct He as [p' [Hs' [_ [_ [Hv [Hm [Htl [Hnv [Hq [[qb [Hqb Hres]] _]]]]]]]]]].
+  rewrite Hs in Hs'. inversion Hs'; subst p'. split; [apply andb_true_iff; split; apply Z.leb_le; assumption|].
+  assert (Hqb' : qb = true) by (unfold final_result in Hres; destruct qb; [reflexivity|discriminate]).
+  subst qb nv q. subst tl. apply chk_passed_sound; auto.
+  apply votes_of_nodup.
+Qed.
+
+Lemma chk_sound_application : forall w0 ops id ok c a1 a2 l1 l2,
+  log (run world ccontent cext cP ops (init w0)) = l1 ++ EvApply id ok c a1 a2 :: l2 ->
+  exists p res tl nv q cf af,
+    submit_of world ccontent id l2 = Some p
+    /\ final_of world ccontent id l2 = Some (res, tl, nv, q, height cf + n_enactblocks (w_np af), cf, af)
+    /\ (p_eend p <=? now c) = true                                         (* clause applied_before_enactment_time *)
+    /\ (height cf + n_enactblocks (w_np af) <=? height c) = true           (* clause applied_before_enactment_height *)
+    /\ n_applied world ccontent id l2 = O                                  (* clause applied_twice *)
+    /\ (ok = true -> a2 = spec_effect (p_content p) a1)                    (* clause atomic: complete effect ... *)
+    /\ (ok = false -> a2 = a1).                                            (* ... or none *)
+Proof.
+  intros w0 ops id ok c a1 a2 l1 l2 Hlog.
+  destruct (applied_not_before_enactment world ccontent cext cP ops w0 id ok c a1 a2 l1 l2 Hlog)
+    as [p [res [tl [nv [q [cf [af [Hs [Hf [He Hh]]]]]]]]]].
+  pose proof (inv_log _ _ _ _ _ (history_ok world ccontent cext cP ops w0)) as Hok. rewrite Hlog in Hok.
+  destruct (log_ok_at _ _ _ _ _ _ _ Hok) as [Hev _]. cbn [ev_ok] in Hev.
+  destruct Hev as [p' [Hs' [Hna [_ [_ Hh']]]]]. rewrite Hs in Hs'. inversion Hs'; subst p'.
+  exists p, res, tl, nv, q, cf, af. cbn [min_enact_blocks cP c_params] in *.
+  repeat split; auto; try (apply Z.leb_le; assumption).
+  - intros ->. cbn [handler cP c_params] in Hh'. apply handler_success_is_full_effect_now. exact Hh'.
+  - intros ->. destruct Hh' as [E _]. exact E.
+Qed.
+
+Lemma chk_sound_vote : forall w0 ops id who opt c a1 l1 l2,
+  log (run world ccontent cext cP ops (init w0)) = l1 ++ EvVote id who opt c a1 :: l2 ->
+  exists p, submit_of world ccontent id l2 = Some p
+    /\ (now c <=? p_vend p) = true                                          (* clause late_vote_accepted *)
+    /\ may_vote a1 who (p_content p) = true.                                (* clause vote_without_permission *)
+Proof.
+  intros w0 ops id who opt c a1 l1 l2 Hlog.
+  destruct (counted_votes_were_admissible world ccontent cext cP ops w0 id who opt c a1 l1 l2 Hlog) as [p [Hs [Hv [Ha Hp]]]].
+  exists p. split; [exact Hs|]. split; [apply Z.leb_le; exact Hv|].
+  rewrite chk_may_vote_matches. cbn [is_active has_vote_perm cP c_params] in Ha, Hp. rewrite Ha, Hp. reflexivity.
+Qed.
